@@ -323,9 +323,9 @@ func (i *IRCServer) deleteSessionLocked(s *Session, msgid uint64) {
 func (i *IRCServer) ExpireSessions() []*robust.Message {
 	var deletes []*robust.Message
 
-	i.ConfigMu.RLock()
-	defer i.ConfigMu.RUnlock()
-	timeout := time.Duration(i.Config.SessionExpiration)
+	// Like in ThrottleUntil, ConfigMu must not be held while waiting for
+	// sessionsMu (lock order: sessionsMu before ConfigMu).
+	timeout := i.sessionExpiration()
 
 	i.sessionsMu.RLock()
 	defer i.sessionsMu.RUnlock()
@@ -581,16 +581,33 @@ func (i *IRCServer) GetNick(sessionid robust.Id) string {
 	return ""
 }
 
-// ThrottleUntil returns the last activity of |sessionid| or the zero time.
-func (i *IRCServer) ThrottleUntil(sessionid robust.Id) time.Time {
+// sessionExpiration returns the configured session expiration.
+func (i *IRCServer) sessionExpiration() time.Duration {
 	i.ConfigMu.RLock()
 	defer i.ConfigMu.RUnlock()
-	cooloff := time.Duration(i.Config.PostMessageCooloff)
+	return time.Duration(i.Config.SessionExpiration)
+}
+
+// postMessageCooloff returns the configured cooloff between two messages.
+func (i *IRCServer) postMessageCooloff() time.Duration {
+	i.ConfigMu.RLock()
+	defer i.ConfigMu.RUnlock()
+	return time.Duration(i.Config.PostMessageCooloff)
+}
+
+// ThrottleUntil returns the last activity of |sessionid| or the zero time.
+func (i *IRCServer) ThrottleUntil(sessionid robust.Id) time.Time {
+	// ConfigMu is released before sessionsMu is taken (lock order:
+	// sessionsMu before ConfigMu, as in ProcessMessage and Marshal): waiting
+	// for sessionsMu while holding ConfigMu can deadlock with Marshal when a
+	// config change is pending.
+	cooloff := i.postMessageCooloff()
 	if cooloff == 0 {
 		return time.Time{}
 	}
-	i.sessionsMu.RLock()
-	defer i.sessionsMu.RUnlock()
+	// ThrottleUntil modifies s.throttlingExponent, hence the write lock.
+	i.sessionsMu.Lock()
+	defer i.sessionsMu.Unlock()
 
 	if s, ok := i.sessions[sessionid]; ok && !s.Server {
 		// Reset throttlingExponent when the session was idle long enough.
